@@ -599,7 +599,7 @@ func (c *c16Linger) Add(interface{}) error {
 	return nil
 }
 
-var c16Inner = []string{"raw", "single", "grouped", "histogram", "histsingle", "histgrouped"}
+var c16Inner = []string{"raw", "single", "grouped", "histogram", "histsingle", "histgrouped", "evsync"}
 
 func c16InnerRecorder(kind string, coll ftdc.Collector) events.Recorder {
 	switch kind {
@@ -620,6 +620,30 @@ func c16InnerRecorder(kind string, coll ftdc.Collector) events.Recorder {
 // SER <inner> <G> :: blocked=.. overlap=<most calls inside the wrapped recorder's collector at once, minus one> adds=..
 func c16Serial(o *out, inner string, G int) bool {
 	coll := &c16Linger{}
+	if inner == "evsync" {
+		// the events package's synchronized collector over a pass-through collector: AddEvent from G goroutines
+		ec := events.NewSynchronizedCollector(events.NewPassthroughCollector(coll))
+		ok := c16Watch(20*time.Second, func() {
+			var wg sync.WaitGroup
+			for g := 0; g < G; g++ {
+				wg.Add(1)
+				go func(g int) {
+					defer wg.Done()
+					for j := 0; j < 6; j++ {
+						_ = ec.AddEvent(&events.Performance{ID: int64(g*100 + j)})
+						_ = ec.Info()
+					}
+				}(g)
+			}
+			wg.Wait()
+		})
+		ov := int(atomic.LoadInt32(&coll.max)) - 1
+		if ov < 0 {
+			ov = 0
+		}
+		o.printf("SER %s %d :: blocked=%d overlap=%d adds=%d\n", inner, G, b2i(!ok), ov, atomic.LoadInt32(&coll.adds))
+		return !ok
+	}
 	rec := events.NewSynchronizedRecorder(c16InnerRecorder(inner, coll))
 	ok := c16Watch(20*time.Second, func() {
 		var wg sync.WaitGroup
